@@ -154,3 +154,14 @@ Example C12_nonvacuous_collection :
   = [(1%Z, 1); (2%Z, 3); (3%Z, 1)] /\
   hash_multi Z Z.eqb [[1; 2]; [2; 3]; [2]]%Z = [1; 2; 3]%Z.
 Proof. split; vm_compute; reflexivity. Qed.
+
+(* the Niemeyer instance computes: base 32, length 2, start (1, 1) in cell "s0"; touched cells
+   "s0", "s3", "s9" (a diagonal staircase: each is only a corner-neighbour of the previous one) and
+   the far-away "sz": the flood returns s0, s3, s9 -- diagonal contact is followed -- and not the
+   touched but unreachable "sz" (so the connectivity hypothesis of hash_exact_partial matters) *)
+Example C12_nonvacuous_niemeyer :
+  let touch := fun gh => existsb (str_eqb gh) [[115; 48]; [115; 51]; [115; 57]; [115; 122]]%Z in
+  encode cfg32 (1, 1)%Q 2 = [115; 48]%Z /\
+  niemeyer_flood cfg32 2 (1, 1)%Q touch 40 = Some [[115; 48]; [115; 51]; [115; 57]]%Z /\
+  touch [115; 122]%Z = true.
+Proof. cbv zeta. split; [vm_compute; reflexivity|]. split; vm_compute; reflexivity. Qed.
